@@ -13,6 +13,7 @@ CONSTANTS
   EnumRankSet = {2}
   SimpleStyles = {"unit", "tuple", "named"}
   MaxLawValues = 8
+  PairMode = FALSE
   Vals = {0, 1}
 INVARIANTS ImplMeetsDecl ImplMeetsProp NoneOnlyFromNaN IgnoredIrrelevant Laws
 CHECK_DEADLOCK FALSE
